@@ -4,7 +4,7 @@
    places, so all behavioural template variants are one definition.
    Go panics are the [Panic] outcome; unbounded Go loops/recursion use fuel and
    return [OutOfFuel] when it is exhausted. *)
-From PV Require Import Lib.Base Lib.Utf8 Syntax.RGrammar Syntax.Code Model.PState.
+From PV Require Import Lib.Base Lib.Utf8 Syntax.RGrammar Syntax.Code Model.PState Spec.Pos.
 From Coq Require Import String.
 Local Open Scope nat_scope.
 
@@ -74,8 +74,6 @@ Definition b_dot : bytes := [46%N].
 Definition b_bang : bytes := [33%N].
 
 (* ---- positions and savepoints ---- *)
-Definition pos0 : position := mkPos 1 0 0.
-Definition save0 (d : bytes) : savepoint := mkSave pos0 0%Z 0 d.
 
 Definition pos_string (p : position) : bytes :=
   (* position.String(): "line:col [offset]" *)
@@ -126,15 +124,9 @@ Definition failAt (fail : bool) (pos : position) (want : bytes) (s : pstate) : p
 
 (* ---- reading ---- *)
 Definition read (c : cfg) (s : pstate) : pstate :=
-  let p := pt s in
-  let rest' := skipn (sp_w p) (sp_rest p) in
-  let off' := offset (sp_pos p) + sp_w p in
-  let '(rn, n) := decode rest' in
-  let col1 := S (col (sp_pos p)) in
-  let pos' := if Z.eqb rn 10%Z then mkPos (S (line (sp_pos p))) 0 off'
-              else mkPos (line (sp_pos p)) col1 off' in
-  let s1 := set_pt (mkSave pos' rn n rest') s in
-  if Z.eqb rn RuneError && Nat.eqb n 1 then
+  let p := adv (pt s) in
+  let s1 := set_pt p s in
+  if Z.eqb (sp_rn p) RuneError && Nat.eqb (sp_w p) 1 then
     if o_allowinvalid (cO c) then s1 else addErr c msg_invalid_encoding s1
   else s1.
 
@@ -206,6 +198,21 @@ Definition run_code {R} (c : cfg) (k : bkind) (id : cid)
     | CbPanic pv st' gs' => Panic pv (set_gs gs' (set_st st' s1))
     end.
 
+Fixpoint in_ranges (cur : rune) (rs : list rune) : bool :=
+  match rs with
+  | lo :: hi :: rs' => (Z.leb lo cur && Z.leb cur hi) || in_ranges cur rs'
+  | _ => false
+  end.
+
+(* The general matching procedure of parseCharClassMatcher (the "slow path"):
+   lower-case the input rune when i is set, look it up in chars, ranges, classes,
+   and flip the verdict when ^ is set.  [true] = the rune matches the class. *)
+Definition class_decide (u : ulib) (chars ranges : list rune) (classes : list bytes)
+           (ic inv : bool) (cur : rune) : bool :=
+  let cur := if ic then to_lower u cur else cur in
+  xorb (existsb (Z.eqb cur) chars || in_ranges cur ranges
+        || existsb (fun cl => in_class u cl cur) classes) inv.
+
 Section Step.
   Variable c : cfg.
   (* parseExprWrap at lower fuel *)
@@ -232,12 +239,6 @@ Section Step.
   Definition cls_fail (cv : bytes) (start : savepoint) : M (val * bool) := fun s =>
     Ok (VNil, false) (failAt false (sp_pos start) cv s).
 
-  Fixpoint in_ranges (cur : rune) (rs : list rune) : bool :=
-    match rs with
-    | lo :: hi :: rs' => (Z.leb lo cur && Z.leb cur hi) || in_ranges cur rs'
-    | _ => false
-    end.
-
   Definition parseCharClassMatcher (cv : bytes) (chars ranges : list rune) (classes : list bytes)
              (ic inv : bool) (table : list bool) : M (val * bool) := fun s =>
     let cur := sp_rn (pt s) in
@@ -247,12 +248,8 @@ Section Step.
       then cls_fail cv start s
       else cls_match cv start s
     else if is_eof s then cls_fail cv start s
-    else
-      let cur := if ic then to_lower (cU c) cur else cur in
-      if existsb (Z.eqb cur) chars || in_ranges cur ranges
-         || existsb (fun cl => in_class (cU c) cl cur) classes
-      then (if inv then cls_fail cv start s else cls_match cv start s)
-      else (if inv then cls_match cv start s else cls_fail cv start s).
+    else if class_decide (cU c) chars ranges classes ic inv cur
+         then cls_match cv start s else cls_fail cv start s.
 
   Fixpoint lit_loop (ic : bool) (want : bytes) (start : savepoint) (rs : list rune) : M (val * bool) :=
     fun s =>
